@@ -149,7 +149,7 @@ func (g *vGen) resolves(v *vVar) bool {
 }
 
 var vNumLits = []string{"0", "1", "2", "3", "7", "10", "0.5", "2.5", "100", "১২", "৩.৫", "1000000", "-1", "-0"}
-var vStrLits = []string{"\"\"", "\"a\"", "\"abc\"", "\"x y\"", "\"কলম\"", "\"12\"", "\"100%\"", "\"#\""}
+var vStrLits = []string{"\"\"", "\"a\"", "\"abc\"", "\"x y\"", "\"কলম\"", "\"12\"", "\"100%\"", "\"$\""}
 var vObjKeys = []string{"k", "alpha", "beta", "ID", "id", "বয়স", "n", "next"}
 
 func (g *vGen) num(d int) string {
